@@ -317,6 +317,13 @@ package martian
 //@   at call 0 of link after set didLink = true
 // hWrote / hFlushed: handle wrote a response itself / flushed the buffered writer after that write. A response never
 // stays in the write buffer when handle returns: the client may be waiting for it before it sends anything else.
+// the head length that shaping works with (DumpResponse) is measured on the head that is written: the close decision,
+// which adds "Connection: close", is made before the measurement
+//@   modifies hDumped, hCloseAtDump
+//@   at entry 0 before set hDumped = false
+//@   at call 0 of DumpResponse before set hDumped = true
+//@   at call 0 of DumpResponse before set hCloseAtDump = res.Close
+//@   at call 0 of Write before assert[shaping-measures-the-head-that-is-written; C18] hDumped ==> res.Close == hCloseAtDump
 //@   modifies hWrote, hFlushed
 //@   at entry 0 before set hWrote = false
 //@   at entry 0 before set hFlushed = false
@@ -325,6 +332,8 @@ package martian
 //@   at return all before assert[a-written-response-is-flushed-before-handle-returns; C01] hWrote ==> hFlushed
 //@   at return all before assert[context-released] didLink ==> !has(ctxs, req)
 //@ ghost var hWrote bool
+//@ ghost var hDumped bool
+//@ ghost var hCloseAtDump bool
 //@ ghost var hFlushed bool
 //@ ghost var up0 int
 //@ ghost var res0 int
